@@ -144,9 +144,9 @@ class PerformedPart(object):
         """Number of tracks"""
         return len(
             set(
-                [n.get("track", -1) for n in self.notes]
-                + [c.get("track", -1) for c in self.controls]
-                + [p.get("track", -1) for p in self.programs]
+                [n.get("track", 0) for n in self.notes]
+                + [c.get("track", 0) for c in self.controls]
+                + [p.get("track", 0) for p in self.programs]
             )
         )
 
@@ -596,14 +596,14 @@ class Performance(object):
         """
         n_tracks = len(
             set(
-                [(i, n.get("track", -1)) for i, pp in enumerate(self) for n in pp.notes]
+                [(i, n.get("track", 0)) for i, pp in enumerate(self) for n in pp.notes]
                 + [
-                    (i, c.get("track", -1))
+                    (i, c.get("track", 0))
                     for i, pp in enumerate(self)
                     for c in pp.controls
                 ]
                 + [
-                    (i, p.get("track", -1))
+                    (i, p.get("track", 0))
                     for i, pp in enumerate(self)
                     for p in pp.programs
                 ]
@@ -620,14 +620,14 @@ class Performance(object):
         """
         unique_track_ids = sorted(
             set(
-                [(i, n.get("track", -1)) for i, pp in enumerate(self) for n in pp.notes]
+                [(i, n.get("track", 0)) for i, pp in enumerate(self) for n in pp.notes]
                 + [
-                    (i, c.get("track", -1))
+                    (i, c.get("track", 0))
                     for i, pp in enumerate(self)
                     for c in pp.controls
                 ]
                 + [
-                    (i, p.get("track", -1))
+                    (i, p.get("track", 0))
                     for i, pp in enumerate(self)
                     for p in pp.programs
                 ]
@@ -638,13 +638,13 @@ class Performance(object):
 
         for i, ppart in enumerate(self):
             for note in ppart.notes:
-                note["track"] = track_map[(i, note.get("track", -1))]
+                note["track"] = track_map[(i, note.get("track", 0))]
 
             for control in ppart.controls:
-                control["track"] = track_map[(i, control.get("track", -1))]
+                control["track"] = track_map[(i, control.get("track", 0))]
 
             for program in ppart.programs:
-                program["track"] = track_map[(i, program.get("track", -1))]
+                program["track"] = track_map[(i, program.get("track", 0))]
 
     def __getitem__(self, index: int) -> PerformedPart:
         """Get `Part in the score by index"""
